@@ -82,7 +82,7 @@ RANDOM_STAGES = ('reshuffle', 'local2', 'local4', 'once', 'apply_reshuffle',
                  'apply_local')
 PRE = ('none', 'map', 'slice', 'items')
 POST = ('none', 'map', 'batch2', 'items', 'concat_plain', 'filter', 'batch_unbatch',
-        'catch', 'copy', 'cache_after')
+        'catch', 'copy', 'cache_after', 'tile2', 'concat_self')
 PREFETCH = ('p1', 'p2t', 'p1b3')
 
 
@@ -127,6 +127,10 @@ def build(ld, prog, seed, rngkind):
             ds = ds.catch()
         elif post == 'copy':
             ds = ds.copy()
+        elif post == 'tile2':
+            ds = ds.tile(2)
+        elif post == 'concat_self':
+            ds = ds.concatenate(ds.map(g))
         elif post == 'cache_after':
             pass
     return ds
@@ -171,7 +175,8 @@ def check_twin(ld, prog, seed, rngkind, res):
     nontrivial = n >= 3 and (a[0] != a[1] or a[1] != a[2] or
                              [sid(x) for x in a[0]] != sorted(sid(x) for x in a[0]))
     res.case(('twin', prog, seed, rngkind), nontrivial=nontrivial)
-    sig = {'stage': stage}
+    sig = {'stage': stage,
+           'shared_random_stage': any(p_ in ('tile2', 'concat_self') for p_ in posts)}
     # --- twin
     b = epochs(build(ld, prog, seed, rngkind), 3, [21, 22, 23])
     res.count('twin_comparisons')
